@@ -101,7 +101,8 @@ class Run:
         self.sc, self.names = sc, names
         self.ids = {v: k for k, v in names.items()}
         self.probes = Probes()
-        ctx = {'p': self.probes.p, 'g': self.probes.g, 'c': self.probes.c, 'tick': self.probes.tick}
+        ctx = {'p': self.probes.p, 'g': self.probes.g, 'c': self.probes.c, 'tick': self.probes.tick,
+               'dg': self.probes.dg, 'dc': self.probes.dc}
         self.base = epoch       # the run starts at a large absolute time (float resolution, tolerances)
         if epoch:
             from sismic.clock import SimulatedClock
@@ -160,7 +161,7 @@ class Run:
         it = self.interp
         if it is None:
             return {'conf': [], 'final': False, 'time': 0, 'x': 0}
-        extra = len(set(it.context) - {'p', 'g', 'c', 'tick', 'x', 'box', 'lst'})     # nothing else may appear
+        extra = len(set(it.context) - {'p', 'g', 'c', 'tick', 'x', 'box', 'lst', 'dg', 'dc'})     # nothing else may appear
         return {'conf': sorted(self.ids[n] for n in it.configuration if n not in self.host_only), 'final': bool(it.final),
                 'time': it.time - self.base, 'x': it.context.get('x', -1) + 1000 * extra}
 
@@ -310,7 +311,7 @@ class Run:
             o['eobj'] = self.owner_of(e.obj)
             cond = e.condition or ''
             try:
-                o['eidx'] = int(cond.split(',')[2])
+                o['eidx'] = int(cond.split(',')[1 if cond.startswith('dc(') else 2])
             except (IndexError, ValueError):
                 o['eidx'] = -1
         except sx.SismicError as e:
